@@ -3,9 +3,10 @@ C14 — The canonical structure encoding behind every hash is injective.
 
 Property theorems only; helper lemmas live in `RedunModel.Lemmas.BStruct`.
 Model: `RedunModel.Model.BStruct` (`enc` = `bencode` on normalised structures, `norm` = what
-`_bencode_to_file` accepts and how it canonicalises str/bytes, list/tuple and dict key order).
+`_bencode_to_file` accepts and how it canonicalises str/bytes, list/tuple and dict key order,
+`decode` = `bdecode`).
 -/
-import RedunModel.Lemmas.BStruct
+import RedunModel.Lemmas.BStructDec
 namespace RedunModel.C14
 open RedunModel.BStruct
 
@@ -52,5 +53,169 @@ theorem rejects_nonstring_key (v : PyVal) (t : PyDict) : norm (.dict (.cons .oth
 example : enc (.list (.cons (.bytes [97, 98]) (.cons (.bytes [99]) .nil)))
     ≠ enc (.list (.cons (.bytes [97]) (.cons (.bytes [98, 99]) .nil))) := by
   intro h; have := enc_injective _ _ h; simp at this
+
+/-! ## (1) key order never matters -/
+
+/-- `norm` of a dict does not depend on the order of its items: any permutation of the item list of a
+Python dict (distinct `str`/`bytes` keys) gives the same result — the same `BDict`, or `none`
+(TypeError) for both.  Together with `enc` being a function: the same bytes. -/
+theorem dict_key_order_irrelevant (kvs kvs' : List (PyKey × PyVal)) (hp : kvs.Perm kvs')
+    (hd : DistinctKeys kvs) :
+    norm (.dict (PyDict.ofItems kvs)) = norm (.dict (PyDict.ofItems kvs')) := by
+  simp only [norm, normDict_perm hp hd 0]
+
+theorem distinctKeys_of_nodup {kvs : List (PyKey × PyVal)} (hd : (kvs.map Prod.fst).Nodup) :
+    DistinctKeys kvs := by
+  unfold DistinctKeys
+  rw [List.Nodup, List.pairwise_map] at hd
+  refine hd.imp ?_
+  intro a b hne
+  cases ha : keyKind a.1 with
+  | none => exact Or.inl rfl
+  | some p =>
+    cases hb : keyKind b.1 with
+    | none => exact Or.inr (Or.inl rfl)
+    | some q =>
+      refine Or.inr (Or.inr ?_)
+      intro e
+      have : p = q := by simpa using e
+      subst this
+      exact hne (keyKind_inj ha hb)
+
+/-- the same with the plain reading of "distinct keys" -/
+theorem dict_key_order_irrelevant_nodup (kvs kvs' : List (PyKey × PyVal)) (hp : kvs.Perm kvs')
+    (hd : (kvs.map Prod.fst).Nodup) :
+    norm (.dict (PyDict.ofItems kvs)) = norm (.dict (PyDict.ofItems kvs')) :=
+  dict_key_order_irrelevant kvs kvs' hp (distinctKeys_of_nodup hd)
+
+/-- ... in particular the encoded bytes (or the TypeError) are the same -/
+theorem dict_key_order_irrelevant_bytes (kvs kvs' : List (PyKey × PyVal)) (hp : kvs.Perm kvs')
+    (hd : DistinctKeys kvs) :
+    (norm (.dict (PyDict.ofItems kvs))).map enc = (norm (.dict (PyDict.ofItems kvs'))).map enc := by
+  rw [dict_key_order_irrelevant kvs kvs' hp hd]
+
+/-- non-vacuity: a two-item dict in both orders; and a str/bytes key mix fails in both orders -/
+example : norm (.dict (PyDict.ofItems [(.str [98], .int 2), (.str [97], .int 1)]))
+    = some (.dict (.cons [97] (.int 1) (.cons [98] (.int 2) .nil))) := by
+  simp [PyDict.ofItems, norm, normDict, keyKind, insertItem, bytesLt]
+example : norm (.dict (PyDict.ofItems [(.str [97], .int 1), (.bytes [98], .int 2)])) = none
+    ∧ norm (.dict (PyDict.ofItems [(.bytes [98], .int 2), (.str [97], .int 1)])) = none := by
+  simp [PyDict.ofItems, norm, normDict, keyKind]
+
+/-! ## (2) the normal form is key-sorted, hence unique -/
+
+/-- Every dict inside the result of `norm` has strictly increasing keys (`WF`), provided the Python
+dicts have distinct keys (`PyDistinct` — true of every Python dict). -/
+theorem norm_sorted (x : PyVal) (v : BVal) (hd : PyDistinct x) (h : norm x = some v) : WF v :=
+  norm_wf x v hd h
+
+/-- `WFDict` says "strictly increasing": the keys are pairwise `<` in list order. -/
+theorem wfDict_keys_pairwise : ∀ d : BDict, WFDict d → (BDict.keys d).Pairwise (fun a b => bytesLt a b = true)
+  | .nil, _ => by simp [BDict.keys]
+  | .cons k v t, h => by
+    simp only [WFDict] at h
+    simp only [BDict.keys, List.pairwise_cons]
+    exact ⟨h.2.1, wfDict_keys_pairwise t h.2.2⟩
+
+/-- A key-sorted dict is determined by its set of items. -/
+theorem sorted_dict_unique (a b : BDict) (ha : WFDict a) (hb : WFDict b)
+    (h : ∀ p, p ∈ BDict.items a ↔ p ∈ BDict.items b) : a = b := wfDict_ext a b ha hb h
+
+/-- Two Python dicts that are equal as finite maps (same set of items, whatever the insertion order)
+normalise to the same `BDict` / fail alike. -/
+theorem norm_same_finmap (kvs kvs' : List (PyKey × PyVal))
+    (hd : (kvs.map Prod.fst).Nodup) (hd' : (kvs'.map Prod.fst).Nodup)
+    (h : ∀ p, p ∈ kvs ↔ p ∈ kvs') :
+    norm (.dict (PyDict.ofItems kvs)) = norm (.dict (PyDict.ofItems kvs')) := by
+  have n1 : kvs.Nodup := by
+    rw [List.Nodup, List.pairwise_map] at hd
+    exact hd.imp (fun hne e => hne (by rw [e]))
+  have n2 : kvs'.Nodup := by
+    rw [List.Nodup, List.pairwise_map] at hd'
+    exact hd'.imp (fun hne e => hne (by rw [e]))
+  exact dict_key_order_irrelevant_nodup kvs kvs' ((List.perm_ext_iff_of_nodup n1 n2).mpr h) hd
+
+/-! ## (3) decoding an encoding returns the structure
+
+`decode` mirrors `bdecode`, including everything it accepts that no `bencode` call produces
+(`i-0e`, `i03e`, `i 1_0 e`, `03:abc`, unsorted or duplicate dict keys, `None` dict values, `lle`, trailing
+bytes).  The property only speaks about decoding *encodings*: `dec_enc`. -/
+
+/-- For every structure `v` — every `BDict`, sorted or not, duplicates or not: the decoder returns the
+item sequence of the stream — and any following bytes, decoding `enc v ++ rest` yields exactly `v` and
+leaves exactly `rest`.  `Fits v`: no byte string of 2^63 bytes or more (`Py_ssize_t`; CPython cannot
+build one, and `f.read(n)` raises OverflowError for such `n`). -/
+theorem dec_enc (v : BVal) (rest : List UInt8) (h : Fits v) :
+    decode (enc v ++ rest) = .ok (ofB v, rest) := decode_enc v rest h
+
+mutual
+  theorem ofB_inj : ∀ a b : BVal, ofB a = ofB b → a = b
+    | .int _, .int _, h => by simpa [ofB] using h
+    | .int _, .bytes _, h => by simp [ofB] at h
+    | .int _, .list _, h => by simp [ofB] at h
+    | .int _, .dict _, h => by simp [ofB] at h
+    | .bytes _, .int _, h => by simp [ofB] at h
+    | .bytes _, .bytes _, h => by simpa [ofB] using h
+    | .bytes _, .list _, h => by simp [ofB] at h
+    | .bytes _, .dict _, h => by simp [ofB] at h
+    | .list _, .int _, h => by simp [ofB] at h
+    | .list _, .bytes _, h => by simp [ofB] at h
+    | .list a, .list b, h => by simp only [ofB, DVal.list.injEq] at h; rw [ofBList_inj a b h]
+    | .list _, .dict _, h => by simp [ofB] at h
+    | .dict _, .int _, h => by simp [ofB] at h
+    | .dict _, .bytes _, h => by simp [ofB] at h
+    | .dict _, .list _, h => by simp [ofB] at h
+    | .dict a, .dict b, h => by simp only [ofB, DVal.dict.injEq] at h; rw [ofBDict_inj a b h]
+  theorem ofBList_inj : ∀ a b : BList, ofBList a = ofBList b → a = b
+    | .nil, .nil, _ => rfl
+    | .nil, .cons _ _, h => by simp [ofBList] at h
+    | .cons _ _, .nil, h => by simp [ofBList] at h
+    | .cons v t, .cons w u, h => by
+      simp only [ofBList, DList.cons.injEq] at h
+      rw [ofB_inj v w h.1, ofBList_inj t u h.2]
+  theorem ofBDict_inj : ∀ a b : BDict, ofBDict a = ofBDict b → a = b
+    | .nil, .nil, _ => rfl
+    | .nil, .cons _ _ _, h => by simp [ofBDict] at h
+    | .cons _ _ _, .nil, h => by simp [ofBDict] at h
+    | .cons k v t, .cons k' w u, h => by
+      simp only [ofBDict, DDict.cons.injEq] at h
+      rw [h.1, ofB_inj v w h.2.1, ofBDict_inj t u h.2.2]
+end
+
+/-- `ofB` (a structure seen as a decoder result) loses nothing. -/
+theorem ofB_injective (a b : BVal) (h : ofB a = ofB b) : a = b := ofB_inj a b h
+
+/-- Decoding is a left inverse of encoding on normalised structures, also through the Python-dict
+view `canonD` (last binding wins, sorted by key): what `bdecode(bencode(x))` holds is `norm x`. -/
+theorem dec_left_inverse (x : PyVal) (v : BVal) (hd : PyDistinct x) (hn : norm x = some v) (hf : Fits v) :
+    decode (enc v) = .ok (ofB v, []) ∧ canonD (ofB v) = ofB v := by
+  have := dec_enc v [] hf
+  simp only [List.append_nil] at this
+  exact ⟨this, canonD_ofB v (norm_sorted x v hd hn)⟩
+
+/-- the decoder is total: the model's fuel always suffices -/
+theorem decode_total (data : List UInt8) : decode data ≠ .error .fuel := decode_ne_fuel data
+
+/-- non-vacuity of `dec_enc` and what `bdecode` accepts beyond encodings (closed instances) -/
+example : decode (enc (.dict (.cons [97] (.list (.cons (.int (-7)) .nil)) .nil)) ++ [120])
+    = .ok (ofB (.dict (.cons [97] (.list (.cons (.int (-7)) .nil)) .nil)), [120]) :=
+  dec_enc _ _ (by simp [Fits, FitsDict, FitsList])
+
+/-- `i-0e`, `i03e`, `i 1_0 e` decode although nothing encodes to them -/
+theorem dec_accepts_non_encodings :
+    decode [105, 45, 48, 101] = .ok (.int 0, [])                       -- i-0e
+    ∧ decode [105, 48, 51, 101] = .ok (.int 3, [])                     -- i03e
+    ∧ decode [105, 32, 49, 95, 48, 32, 101] = .ok (.int 10, [])        -- `i 1_0 e`
+    ∧ decode [48, 51, 58, 97, 98, 99] = .ok (.bytes [97, 98, 99], [])  -- 03:abc
+    ∧ decode [108, 108, 101] = .ok (.list (.cons (.list .nil) .nil), [])   -- lle  -> [[]]
+    ∧ decode [100, 49, 58, 97, 101] = .ok (.dict (.cons [97] .none .nil), [])   -- d1:ae -> {'a': None}
+    ∧ decode [100, 49, 58, 98, 105, 49, 101, 49, 58, 97, 105, 50, 101, 101]
+        = .ok (.dict (.cons [98] (.int 1) (.cons [97] (.int 2) .nil)), [])      -- d1:bi1e1:ai2ee (unsorted)
+    ∧ decode [108] = .error .type ∧ decode [105, 49] = .error .value
+    ∧ decode [100, 105, 49, 101, 105, 50, 101, 101] = .error .assertion := by
+  refine ⟨rfl, rfl, rfl, rfl, rfl, rfl, rfl, rfl, rfl, rfl⟩
+/-- duplicate keys: the Python dict keeps the last binding -/
+example : canonD (.dict (.cons [97] (.int 1) (.cons [97] (.int 2) .nil))) = .dict (.cons [97] (.int 2) .nil) := by
+  simp [canonD, canonDDict, dHasKey, dInsert]
 
 end RedunModel.C14
